@@ -21,7 +21,7 @@ type c12Case struct {
 	Shape   int    `json:"shape"`
 	Second  bool   `json:"second"`             // fault on the second render of the same Msg (boundaries cached)
 	SinkAt  int    `json:"sink_at"`            // sink fails once this many bytes were accepted (-1 = never)
-	Style   int    `json:"style"`              // 0 accepts the prefix then errors, 1 rejects the whole write
+	Style   int    `json:"style"`              // 0 accepts the prefix then errors, 1 rejects the whole write, 2 accepts the prefix and reports no error for that write (every later write is refused)
 	Prod    string `json:"prod"`               // producer that fails ("" = none)
 	ProdHow int    `json:"prod_how"`           // 1 before data, 2 after half, 3 after all data
 	ErrKind int    `json:"err_kind,omitempty"` // which error value the failing producer returns (index into c12Errs)
@@ -69,6 +69,11 @@ func c12Shapes() []mb.Msg {
 		{Parts: []mb.Part{p("")}, Attach: []mb.File{f("a.bin")}, Recycle: 2},                                   // 19
 		{Parts: []mb.Part{p("")}, Recycle: 2},                                                                  // 20
 		{Attach: []mb.File{f("one.bin"), f("two.bin")}, Recycle: 1},                                            // 21
+		// transfer-encoding names outside go-mail's four constants (Encoding is a string type): whatever go-mail does with
+		// the content, errors and the byte count must still be right
+		{Parts: []mb.Part{p("binary")}},                                                                               // 22
+		{Attach: []mb.File{{Name: "only.bin", Content: c12Bin, Enc: "binary"}}},                                       // 23
+		{Parts: []mb.Part{p("QP-mixed-case"), h}, Attach: []mb.File{{Name: "a.bin", Content: c12Bin, Enc: "binary"}}}, // 24
 	}
 }
 
@@ -96,6 +101,10 @@ func (s *faultSink) Write(p []byte) (int, error) {
 		}
 		k := s.at - s.accepted
 		s.accepted += k
+		if s.style == 2 {
+			// accepts only a prefix of this write and does not say so (n < len(p), nil); every later write is refused
+			return k, nil
+		}
 		return k, errSink
 	}
 	s.accepted += len(p)
@@ -317,7 +326,7 @@ func init() {
 				}
 				L := b.Len()
 				for _, second := range []bool{false, true} {
-					for style := 0; style < 2; style++ {
+					for style := 0; style < 3; style++ {
 						for k := 0; k < L; k++ {
 							if spec.SMIME != 0 && !r.Thorough && k%3 != 0 {
 								continue // signing is the expensive part; quick takes every third offset on signed shapes
